@@ -172,7 +172,13 @@ def _pchip_derivatives(
     h_l, h_r = h[:-1], h[1:]
 
     mask_same_sign = (delta_l * delta_r) > 0  # excludes zeros + sign changes
-    dh = _weighted_harmonic_mean(delta_l, delta_r, h_l, h_r)
+    # Evaluate the harmonic mean on safe secants where it is discarded anyway:
+    # a zero secant (flat segment) would divide by zero, and the masked-out
+    # inf/nan still turns every gradient through torch.where into nan.
+    ones = torch.ones_like(delta_l)
+    safe_l = torch.where(mask_same_sign, delta_l, ones)
+    safe_r = torch.where(mask_same_sign, delta_r, ones)
+    dh = _weighted_harmonic_mean(safe_l, safe_r, h_l, h_r)
     d[1:-1] = torch.where(mask_same_sign, dh, torch.zeros_like(dh))
 
     # Endpoints (one-sided + limiter)
